@@ -89,3 +89,50 @@ vt_proof! { unwind = 26; fn c17_equal_keys_hash_equal_mixed() {
     kani::cover!(eq, "w:int_equals_float");
     if eq { assert!(same_stream(&stream(&la[0]), &stream(&lb[0])), "role=equal_int_and_float_join_keys_hash_identically"); }
 }}
+
+// ---------------------------------------------------------------- LIMIT / OFFSET window
+use turdb::sql::executor::{Executor, ExecutorRow, LimitExecutor};
+
+static ROWS: [[Value<'static>; 1]; 5] = [[Value::Int(10)], [Value::Int(11)], [Value::Int(12)], [Value::Int(13)], [Value::Int(14)]];
+/// Child executor yielding `n` rows tagged 10, 11, ...
+struct Child { i: usize, n: usize }
+impl<'a> Executor<'a> for Child {
+    fn open(&mut self) -> eyre::Result<()> { self.i = 0; Ok(()) }
+    fn next(&mut self) -> eyre::Result<Option<ExecutorRow<'a>>> {
+        if self.i < self.n { self.i += 1; Ok(Some(ExecutorRow::new(&ROWS[self.i - 1]))) } else { Ok(None) }
+    }
+    fn close(&mut self) -> eyre::Result<()> { Ok(()) }
+}
+
+// @vt prop=C15 tier=quick bound="LimitExecutor over a child of 0..=5 rows with ANY limit (None or any u64) and ANY offset (None or any u64): the rows returned are exactly rows [offset, offset+limit) of the child, in order" outside="children with more than 5 rows" timeout=1800
+vt_proof! { unwind = 8; fn c15_limit_offset_window() {
+    let n: usize = kani::any(); kani::assume(n <= 5);
+    let limit: Option<u64> = if kani::any() { None } else { Some(kani::any()) };
+    let offset: Option<u64> = if kani::any() { None } else { Some(kani::any()) };
+    let mut ex = LimitExecutor::new(Child { i: 0, n }, limit, offset);
+    let o = core::mem::ManuallyDrop::new(ex.open()); assert!(o.is_ok(), "role=open_ok");
+    let off = offset.unwrap_or(0);
+    let mut got = 0u64;
+    let mut k = 0;
+    while k < 7 {
+        let r = core::mem::ManuallyDrop::new(ex.next());
+        match &*r {
+            Ok(Some(row)) => {
+                let want_idx = off + got; // saturating not needed: a row was produced, so off + got < n
+                assert!(want_idx < n as u64, "role=limit_returns_only_existing_rows");
+                assert!(matches!(row.get(0), Some(Value::Int(t)) if *t == 10 + want_idx as i64), "role=limit_offset_returns_rows_in_order_from_offset");
+                got += 1;
+                if let Some(l) = limit { assert!(got <= l, "role=limit_is_not_exceeded"); }
+            }
+            Ok(None) => {}
+            Err(_) => assert!(false, "role=next_ok"),
+        }
+        k += 1;
+    }
+    // exactly min(limit, max(n - offset, 0)) rows came out
+    let avail = if off >= n as u64 { 0 } else { n as u64 - off };
+    let want = match limit { Some(l) if l < avail => l, _ => avail };
+    assert!(got == want, "role=limit_offset_window_size");
+    kani::cover!(got == 2 && off == 2, "w:middle_window");
+    kani::cover!(limit == Some(0), "w:limit_zero");
+}}
